@@ -25,3 +25,45 @@ chk('C14', MC,
     'CBMC on the real vm.c/heap.c: for every opcode and operand-kind tuple (incl. aliasing and containers of strings), one instruction from any state satisfying the reference-count invariant preserves it: nothing referenced is freed, ref_count >= (and, for non-trapping steps, ==) in-degree + hidden references, nothing freed twice, new reachable objects are live.',
     'One inductive step per opcode from constructed pre-states (<= 8 objects, nesting container->string); free() replaced by a ghost recorder; the whole-program churn bound is decided only through the per-instruction no-leak equality.',
     'CBMC bounded model checking of one VM step with a ghost-free reference audit', 'DESIGN.md 4/C14')
+HOOK_COMMITS = ['0398903']
+FE = 'fault_enumeration'
+chk('C02', MC,
+    'Operator kernels only: one real NanoVM instruction per arithmetic/comparison/logic opcode on ALL operand pairs (2^128 int pairs, all float bit patterns) compared with the specified operator (64-bit wrap, truncating total division, mathematical order). + - compare logic via SAT; * / % via CBMC-exported SMT2 decided by z3 and cvc5.',
+    'NanoVM engine only. Native operators, evaluation order, short-circuit lowering, scoping and the Coq relation need program-level translation validation, which was not built; those parts of C02 are NOT claimed (see evidence outside_claim).',
+    'CBMC one-instruction kernels vs reference operator; SMT2 export + z3/cvc5 for * / %', 'DESIGN.md 4/C02, 10')
+chk('C05', MC,
+    'Driver gating only: the real compile_file (nanoc) and nano_virt main run with every phase outcome symbolic; a failed lexer/parser/import/type-check phase gives non-zero status and no code generation, no file opened for writing, no cc/system, no VM run, for every combination of outcomes and the four command-line modes.',
+    'Which programs the type checker rejects is NOT decided (rule kernels on typechecker.c not built); only that a rejection is never turned into an artifact.',
+    'CBMC on the real drivers with symbolic phase outcomes (environment stubs + ghost flags)', 'DESIGN.md 4/C05, 10')
+chk('C06', MC,
+    'Driver gating only: in the real compile_file, a false result of the shadow-test phase gives non-zero status before transpilation, with no file written and no compiler run; a true result reaches transpilation - for every combination of the other phase outcomes.',
+    'How eval.c counts assertion failures (run_shadow_tests, AST_ASSERT) is NOT decided: the harness on real ASTs gave no verdict (attempts/shadow_gate.c).',
+    'CBMC on the real nanoc driver with symbolic phase outcomes', 'DESIGN.md 4/C06, 10')
+chk('C15', MC,
+    'CBMC on the real cop_protocol.c + heap.c: every transferable value shape (scalars, strings, arrays incl. nested) with ALL contents survives serialize->deserialize bit for bit through a buffer of symbolic size; too-small buffers and truncated encodings are refused; read_all/write_all deliver exactly the bytes for every chunking.',
+    'Strings <= 5 bytes, arrays <= 3 elements; the request path (8 KiB request buffer) and real FFI libraries are not decided (see evidence outside_claim).',
+    'CBMC bounded model checking of the wire codec and transport loops, symbolic payload', 'DESIGN.md 4/C15')
+chk('C16', FE,
+    'Fault enumeration by solver: the real VM-side protocol code (vm_ffi_call_cop, cop_ensure, cop_start/stop, cop_send/recv) runs against an arbitrary peer: every read/write/waitpid/fork/pipe outcome and every reply byte is a solver variable; asserts memory safety, no fatal SIGPIPE, no double close, no endless wait, no un-reaped child, all descriptors closed; plus the value decoder on arbitrary/hostile bytes.',
+    'One external call + shutdown in quick (two in thorough); process table and signals are ghost state in the stubs; decoder inputs <= 17 bytes with concrete structure bytes.',
+    'CBMC with nondeterministic POSIX stubs (fault schedule symbolic) + decoder robustness kernels', 'DESIGN.md 4/C16')
+chk('C18', FE,
+    'Fault enumeration by solver: one whole daemon client session (real client_thread + vmd_protocol.c) under an arbitrary client and kernel (all header bytes, EOF/reset/short reads at every point, write failures while printing, every loader/verifier/VM outcome) and the real accept loop under every poll/accept/pthread_create outcome: memory-safe, leak-free, descriptor closed once, counter restored, module executed only after verification, loop survives accept failures.',
+    'Single session per query (no concurrency); stdio buffering not modelled; loader/verifier/VM are stubs here (their own subjects are C12/C13).',
+    'CBMC with nondeterministic POSIX stubs over the real session / accept-loop code', 'DESIGN.md 4/C18')
+chk('C19', MC,
+    'Serialisation kernels only: self-composition under CBMC shows isa_encode (every opcode) and nvm_serialize (all module shapes) produce byte-identical output for inputs that agree on semantic content and differ arbitrarily in unused bytes, padding, stale bookkeeping fields and buffer contents; no clock/env/pid source is consulted.',
+    'transpile_to_c / codegen_compile as wholes (module paths, hash order, uninitialised scratch memory there) are NOT decided.',
+    'CBMC self-composition (two runs, semantically equal inputs, outputs compared)', 'DESIGN.md 4/C19')
+chk('C20', MC,
+    'CBMC on the real runtime/dyn_array.c: one operation of every accessor/mutator (all element kinds incl. structs) from ANY valid array (symbolic length 0..capacity incl. the full array that must grow, all contents, all indices/values): memory-safe incl. size-arithmetic overflow, invariant preserved, result equals the abstract list operation.',
+    'Inductive single step (covers histories of any length given the invariant). gc.c (no verdict), nl_string.c formatting and generated programs are not decided.',
+    'CBMC bounded model checking, inductive step over the dyn_array representation invariant', 'DESIGN.md 4/C20')
+NA = {
+ 'C01': 'Program-level translation validation (generated C vs NanoVM via the CFG-specialised driver of DESIGN.md 3.2) was prototyped in the design phase but the generator was not built in the time available; operator-level agreement of the VM with the specification is decided under C02, out-of-range behaviour under C08. Whole-program equivalence is therefore not decided by this technique here.',
+ 'C03': 'eval.c could not be symbolically executed at useful scale: a one-assert AST through the real eval_statement gave no verdict in 600 s (attempts/shadow_gate.c); only the array builtins of the evaluator are covered (under C08).',
+ 'C04': 'Needs the program family + generated artefacts of the translation-validation engine (not built); the per-instruction part (no memory error, documented traps only, verifier meaning) is decided under C13.',
+ 'C07': 'parser.c under CBMC: parse_program on 3 symbolic tokens did not finish symbolic execution in 5 min (design probe) and the per-function progress-contract harnesses were not built in the time available.',
+ 'C09': 'tokenize() on a single symbolic byte gave no verdict in 600 s (attempts/lexer_total.c); parser/type checker totality not attempted (see C07).',
+ 'C17': 'The quantifier is over thread interleavings of whole VM sessions and data races: CBMC cannot carry two interpreter sessions; no bounded encoding within reach. The sequential session path (framing, verification before execution, cleanup) is decided under C18.',
+}
